@@ -8,6 +8,10 @@ def sysnote(extra=""):
     return ("Trusted: TLC; the recorder's projection (provenance ids via wrapped prior_transform/log_likelihood, order ranks, content tags, re-computation at the recorded temperature with the library's own functions); hooks placed after the state change. " + extra)
 
 CHECKS = {
+ "C03": dict(level="model_checking",
+    text="PARTIAL (discrete kernel structure and the algebraic tpCN identity; not the continuous sampling laws). Kernel.tla: the Metropolis sweep on a cell-centred lattice (propose, fold, bounds check, accept/reject, joint record update) with exact integer transition weights for every target table, beta, symmetric increment alphabet and hard / periodic / reflective boundary kinds; TLC checks detailed balance, row-stochasticity and never leaving the cube for the intended hard-wall rule and refutes it for the redraw-until-inside rule. KernelTpcn.tla: gamma shape/rate, Crank-Nicolson map and Student-t correction over exact rationals; the reversibility identity reduces to a polynomial identity checked on all lattice pairs, three wrong variants refuted. Every enumerated transition / proposal is replayed into the real RWMRunner / TPCNRunner and through parallel_mcmc with scripted innovations (post-sweep records, draw counts, gamma parameters, acceptance factor compared). Known finding: tpCN on folded coordinates.",
+    note="Trusted: TLC; that numpy.random.gamma/randn/rand sample the laws their parameters name; step-size adaptation is pinned; the image-sum comparison for folded coordinates uses exact Fractions with a rigorous tail bound outside TLC; direct simulations only confirm spec-derived predictions.",
+    technique="TLA+ specs (Kernel.tla, KernelTpcn.tla) model-checked by TLC; enumerated transitions replayed into the implementation", design="DESIGN.md §4 C03"),
  "C04": dict(level="model_checking",
     text="MISWeights.tla computes the balance-heuristic weights and evidence in exact rational arithmetic (log-likelihoods k*ln2, temperatures in {0,1/2,1}, evidences powers of two) with one action per step of compute_logw_and_logz; TLC enumerates all histories within the bounds (T<=3 batches, unequal sizes, any temperature order) and checks the formula, sum-to-one, permutation invariance, shift invariance, batch-split invariance, the single-batch case and a dominant-term enclosure; five seeded wrong formulas are refuted. Every enumerated history is built in a real StateManager through its public API and compared with the rationals at 1e-12, and replayed through shift families up to +-1e6 and within-history spreads of +-1e6 (finite, normalised, inside the enclosure). In every recorded whole run the weights handed on by reweighting are compared with an independent reference (clause RW_RefAgrees).",
     note="Trusted: TLC; libm exp/log (the code's only inexactness); the largest models are sampled by VERIF_SEED in the quick tier.",
